@@ -73,6 +73,7 @@ func (f *in) Listen(onMsg func(msg []byte, milliseconds int32), conf drivers.Lis
 	//fmt.Printf("listeining from in port of %s\n", f.Driver.name)
 
 	f.last = time.Now()
+	f.stopListening = false
 
 	stopFn = func() {
 		f.stopListening = true
@@ -143,7 +144,7 @@ func (f *out) Send(bt []byte) error {
 		return drivers.ErrPortClosed
 	}
 
-	if f.stopListening {
+	if f.stopListening || f.rd == nil {
 		return nil
 	}
 
